@@ -16,11 +16,71 @@ import (
 
 type Integration struct {
 	SendResolved bool `json:"send_resolved"`
+	// Kind: "" = webhook_configs entry, "discord" = discord_configs entry (a second integration type, so that an
+	// integration's identity "<type>[<index within the type>]" differs from its position in the receiver)
+	Kind string `json:"kind,omitempty"`
 }
 
 type Receiver struct {
 	Name         string        `json:"name"`
 	Integrations []Integration `json:"integrations"`
+}
+
+// Integration ids used throughout the harness: webhook[k] = k, discord[k] = DiscordBase + k. This is the identity the
+// notification log uses (integration name + index within its type), stable when other types gain or lose entries.
+const DiscordBase = 100
+
+// IDs lists the receiver's integrations in the order the receiver is built (all webhooks, then all discords).
+func (r *Receiver) IDs() []int {
+	var out []int
+	for _, kind := range []string{"", "discord"} {
+		k := 0
+		for _, in := range r.Integrations {
+			if in.Kind == kind {
+				if kind == "" {
+					out = append(out, k)
+				} else {
+					out = append(out, DiscordBase+k)
+				}
+				k++
+			}
+		}
+	}
+	return out
+}
+
+// ByID returns the integration with the given id, nil if the receiver has none.
+func (r *Receiver) ByID(id int) *Integration {
+	kind, want := "", id
+	if id >= DiscordBase {
+		kind, want = "discord", id-DiscordBase
+	}
+	k := 0
+	for i := range r.Integrations {
+		if r.Integrations[i].Kind == kind {
+			if k == want {
+				return &r.Integrations[i]
+			}
+			k++
+		}
+	}
+	return nil
+}
+
+// IntegrationName splits an id into the integration type name and the index within the type.
+func IntegrationName(id int) (string, int) {
+	if id >= DiscordBase {
+		return "discord", id - DiscordBase
+	}
+	return "webhook", id
+}
+
+// IntegrationID is the inverse of IntegrationName.
+func IntegrationID(name string, idx int) int {
+	if name == "discord" {
+		return DiscordBase + idx
+	}
+	return idx
 }
 
 // Route is the routing node as the user writes it. Nil pointers = inherit.
@@ -141,10 +201,17 @@ func (c *Config) YAML() string {
 	sb.WriteString("receivers:\n")
 	for _, r := range c.Receivers {
 		sb.WriteString("- name: " + r.Name + "\n")
-		if len(r.Integrations) > 0 {
-			sb.WriteString("  webhook_configs:\n")
+		for _, kind := range []string{"", "discord"} {
+			first := true
 			for _, in := range r.Integrations {
-				sb.WriteString(fmt.Sprintf("  - url: http://127.0.0.1:1/\n    send_resolved: %v\n", in.SendResolved))
+				if in.Kind != kind {
+					continue
+				}
+				if first {
+					sb.WriteString(map[string]string{"": "  webhook_configs:\n", "discord": "  discord_configs:\n"}[kind])
+					first = false
+				}
+				sb.WriteString(fmt.Sprintf("  - %s: http://127.0.0.1:1/\n    send_resolved: %v\n", map[string]string{"": "url", "discord": "webhook_url"}[kind], in.SendResolved))
 			}
 		}
 	}
